@@ -722,7 +722,9 @@ func (s *sim) genRaw(rng *simcore.RNG) simcore.Op {
 		op["id"] = []int{rng.Intn(256), 256 + rng.Intn(256), -1 - rng.Intn(200), 1 << 30, 256 + valid, valid - 256, 65536 + valid}[rng.Intn(7)]
 		op["n"] = rng.Range(0, s.payload)
 	case "big":
-		op["n"] = s.payload + rng.Range(1, 2000)
+		// well clear of the per-packet limit: a payload a few bytes over the sender-side
+		// packet size may or may not fit the receiver's frame limit (not a property matter)
+		op["n"] = s.payload + rng.Range(16, 2000)
 	case "ping", "pong":
 		op["cnt"] = rng.Range(1, 30)
 	case "rand":
@@ -1140,7 +1142,7 @@ func (s *sim) opRaw(op simcore.Op) bool {
 		e.Count("fault.hostile_unknown_channel")
 	case "big":
 		n := op.Int("n")
-		if n <= s.payload || n > 1<<22 {
+		if n < s.payload+16 || n > 1<<22 {
 			return false
 		}
 		out = pkt(&tmp2p.PacketMsg{ChannelID: id, EOF: true, Data: rng.Bytes(n)})
